@@ -350,10 +350,9 @@ impl Prop for P {
             vec(interval_strategy(1e30), 8..=8),
             samples_strategy(4..=tier.pick(8, 16)),
         )
-            .prop_map(|(dag, boxes, samples)| Case::Enclose {
-                dag,
-                boxes,
-                samples,
+            .prop_map(|(dag, boxes, samples)| {
+                let boxes = gens::coincide_boxes(&dag, boxes, 1e30);
+                Case::Enclose { dag, boxes, samples }
             });
         let entry = prop_oneof![
             3 => gens::fl_uniform(-2.0, 2.0),
